@@ -26,8 +26,11 @@ pub(crate) mod verif_mutex {
     pub const W_WAKER_SWAP: u32 = 8; // a waiting future was re-polled with the other waker and later woken through it
 
     /// Bounded history through the public API.
-    /// cfg: 0 = unfair, 1 = fair, 2 = symbolic.
+    /// cfg bits 0-1: 0 = unfair, 1 = fair, 2 = symbolic; bits 2-3 `pre`: the first `pre` operations are fixed to
+    /// "poll lock future #k with waker A" (partition of the script space; they consume no script byte).
     pub fn hist<M: RawMutex, S: Src>(s: &mut S, cfg: u32, n: usize, p: u32) -> u32 {
+        let pre = ((cfg >> 2) & 3) as usize;
+        let cfg = cfg & 3;
         let fair = if cfg == 2 { s.flag() } else { cfg == 1 };
         let m = GenericMutex::<M, u8>::new(0, fair);
         let (c0a, c0b, c1a, c1b, c2a, c2b) = (
@@ -53,7 +56,7 @@ pub(crate) mod verif_mutex {
         let mut step = 0;
         while step < n && !s.exhausted() {
             step += 1;
-            let op = s.below(11);
+            let op = if step <= pre { ((step - 1) * 2) as u8 } else { s.below(11) };
             if op < 6 {
                 // ---- poll slot i with waker w ----
                 let i = (op / 2) as usize;
@@ -424,7 +427,7 @@ pub(crate) mod verif_mutex {
             }
 
             // C01 / R1, R2 (and R6: queue order = arrival order)
-            if (p & (P01 | P04)) != 0 {
+            if (p & (P01 | P04 | P03)) != 0 {
                 let g = m.state.lock();
                 let nodes: [*const Node; 3] = [&f0.wait_node, &f1.wait_node, &f2.wait_node];
                 let len = g.waiters.verif_len_checked(3);
@@ -449,6 +452,8 @@ pub(crate) mod verif_mutex {
                 }
                 if (p & P01) != 0 {
                     assert!(len == Some(cnt), "C01 mutex step: wait queue holds a node that is not a live waiting future");
+                }
+                if (p & (P01 | P03)) != 0 {
                     i = 0;
                     while i < 3 {
                         if alive[i] && t2[i] == S::Waiting {
@@ -456,7 +461,8 @@ pub(crate) mod verif_mutex {
                             let lwc: &WakeCell = if i == polled { if polled_w { cells_a[i] } else { cells_b[i] } }
                                                  else if lw[i] { cells_a[i] } else { cells_b[i] };
                             let ok = match &n.task { Some(w) => w.will_wake(&ManuallyDrop::new(mk_waker(lwc))), None => false };
-                            assert!(ok, "C01 mutex step: waiting future does not store the waker of its latest poll");
+                            if (p & P01) != 0 { assert!(ok, "C01 mutex step: waiting future does not store the waker of its latest poll"); }
+                            if (p & P03) != 0 { assert!(ok, "C03 mutex step: waiting future does not store the waker of its latest poll (it would be woken through a stale waker)"); }
                         }
                         i += 1;
                     }
@@ -559,6 +565,21 @@ pub(crate) mod verif_mutex {
         hist_proof!(hist_c01_n8, NoopLock, 8, P01, 2, 9);
         hist_proof!(hist_c01_n6_check, CheckLock, 6, P01, 2, 7);
 
+        hist_proof!(hist_c02_p3_n6, NoopLock, 6, P02, 2 | (3 << 2), 7);
+        hist_proof!(hist_c02_p3_n7, NoopLock, 7, P02, 2 | (3 << 2), 8);
+        hist_proof!(hist_c02_p3_n8, NoopLock, 8, P02, 2 | (3 << 2), 9);
+        hist_proof!(hist_c03_p3_n6, NoopLock, 6, P03, 2 | (3 << 2), 7);
+        hist_proof!(hist_c03_p3_n7, NoopLock, 7, P03, 2 | (3 << 2), 8);
+        hist_proof!(hist_c03_p3_n8, NoopLock, 8, P03, 2 | (3 << 2), 9);
+        hist_proof!(hist_c04_p3_n6, NoopLock, 6, P04, 1 | (3 << 2), 7);
+        hist_proof!(hist_c04_p3_n7, NoopLock, 7, P04, 1 | (3 << 2), 8);
+        hist_proof!(hist_c04_p3_n8, NoopLock, 8, P04, 1 | (3 << 2), 9);
+        hist_proof!(hist_c17_p3_n6, NoopLock, 6, P17, 2 | (3 << 2), 7);
+        hist_proof!(hist_c17_p3_n7, NoopLock, 7, P17, 2 | (3 << 2), 8);
+        hist_proof!(hist_c17_p3_n8, NoopLock, 8, P17, 2 | (3 << 2), 9);
+        hist_proof!(hist_c01_p3_n6, NoopLock, 6, P01, 2 | (3 << 2), 7);
+        hist_proof!(hist_c01_p3_n7, NoopLock, 7, P01, 2 | (3 << 2), 8);
+        hist_proof!(hist_c01_p3_n8, NoopLock, 8, P01, 2 | (3 << 2), 9);
         macro_rules! step_proof {
             ($name:ident, $lock:ty, $fair:expr, $class:expr, $p:expr) => {
                 #[kani::proof]
